@@ -187,8 +187,17 @@ func script(asserts []*Term, wantModel bool, relax bool) (string, []*Term) {
 		if b.Hi != nil {
 			fmt.Fprintf(&sb, "(assert (<= %s %s))\n", n, b.Hi)
 		}
+		// a small bit length (at most 64) gets the complete ladder: arithmetic over it, as in
+		// (BitLen+7)/8, is then decided exactly; wide ones only the thresholds the query mentions
+		bths := ths
+		if b.Hi != nil && b.Hi.IsInt64() && b.Hi.Int64() <= 64 {
+			bths = nil
+			for k := int64(1); k <= b.Hi.Int64(); k++ {
+				bths = append(bths, k)
+			}
+		}
 		last := int64(-1)
-		for _, k := range ths {
+		for _, k := range bths {
 			if k <= 0 || k == last {
 				continue
 			}
